@@ -3,6 +3,7 @@ package bitstr
 import (
 	"bytes"
 	"math/bits"
+	"reflect"
 	"unsafe"
 
 	"github.com/openacid/low/bitmap"
@@ -130,7 +131,18 @@ func CmpUpto(a, b []byte) int {
 //
 // Since 0.1.20
 func StrCmpUpto(a string, b []byte) int {
-	return CmpUpto(*(*[]byte)(unsafe.Pointer(&a)), b)
+
+	// A string header has no cap field: reinterpreting it as a slice header
+	// reads the cap from whatever follows it in memory.
+	// Build the slice header from the string header instead.
+	var bs []byte
+	sh := (*reflect.StringHeader)(unsafe.Pointer(&a))
+	bh := (*reflect.SliceHeader)(unsafe.Pointer(&bs))
+	bh.Data = sh.Data
+	bh.Len = sh.Len
+	bh.Cap = sh.Len
+
+	return CmpUpto(bs, b)
 }
 
 // Len returns the number of payload bits in a bitStr.
